@@ -997,13 +997,25 @@ func tunnelRead(bufLen, replyLen int) (int, string) {
 		err error
 	}
 	done := make(chan res, 1)
+	// caller memory: the buffer is a window of a sentinel-filled page with
+	// spare capacity behind it; nothing outside the window may change
+	const lead, spare = 16, 48 * 1024
+	page := make([]byte, lead+bufLen+spare)
+	for i := range page {
+		page[i] = 0x5C
+	}
 	go func() {
-		buf := make([]byte, bufLen)
+		buf := page[lead : lead+bufLen : len(page)]
 		n, err := client.Tunnel(5).Read(buf)
 		done <- res{n, err}
 	}()
 	select {
 	case r := <-done:
+		for i, b := range page {
+			if (i < lead || i >= lead+bufLen) && b != 0x5C {
+				return r.n, "outside"
+			}
+		}
 		if r.err != nil {
 			return r.n, "rejected"
 		}
